@@ -32,6 +32,7 @@
 -/
 import Lungo.Proofs.OplogSteps
 import Lungo.Proofs.ReplayLaws
+import Lungo.Proofs.UpdateDesc
 namespace Lungo.C08
 open Lungo Lungo.Spec
 
@@ -693,5 +694,66 @@ private def sEnd : Sys := execAll schemaUnmodelled sMid (histF.drop 2)
 #guard (contents sEnd.catalog).docs hB == []
 #guard (replay (eventsBetween Sys.init.catalog sEnd.catalog) (contents Sys.init.catalog)).docs hA == (contents sEnd.catalog).docs hA
 #guard histF.all fun c => c.1.covered
+
+/-! ## Part 5 — `update_desc_sound`
+
+  FULL STATEMENT (not proved here): for an update event produced from
+  `Apply c old u fs = .ok (new, changes)`, `applyDesc old updatedFields removedFields` is a document
+  equal to `new` up to field order, where `updatedFields` / `removedFields` are the sorted
+  non-missing / missing entries of `changes` as written by `oplogEvent`.
+
+  PROVED (`update_desc_sound_partial`): the composition step, for the recorded entries taken in ANY
+  order (so in particular the sorted one): given
+    * `AccessLaws unrel` — the get/put laws of `Put`/`Unset` for paths that are not prefixes of
+      one another (C11: `put_get`, `record_conflict_free`), and
+    * `ChangesHold` — what C11's `changes_hold` / `changes_cover` give for `Apply`: every recorded
+      (path, value) holds in `new` (value `missing` = the path is absent), the recorded paths are
+      pairwise conflict-free, and `new` agrees with `old` on every path unrelated to all of them,
+  then the replayed document agrees with `new` on every recorded path and on every path
+  unrelated to all recorded paths.
+  MISSING for the full statement: (1) the two hypotheses (owned by the C11 agent; not on this
+  branch); (2) that `oplogEvent`'s `Array.qsort` calls return permutations of their input (no
+  `qsort` lemmas in core) — only needed to connect `us`/`rs` below to the event document;
+  (3) the extension from "agree on all recorded and all unrelated paths" to "equal up to field
+  order" (needs the sub-path / ancestor-path laws of `get`). -/
+
+/-- the facts about `Apply old u fs = .ok (new, changes)` used (from C11), on split paths:
+    `us` = recorded (path, value ≠ missing) pairs, `rs` = recorded removed paths -/
+structure ChangesHold (unrel : Path → Path → Prop) (old new : Doc) (us : List (Path × V)) (rs : List Path) : Prop where
+  holds_set : ∀ pv ∈ us, getP new pv.1 = pv.2
+  holds_unset : ∀ p ∈ rs, getP new p = .missing
+  conflict_free : (us.map (·.1) ++ rs).Pairwise unrel
+  frame : ∀ q, (∀ pv ∈ us, unrel pv.1 q) → (∀ p ∈ rs, unrel p q) → getP new q = getP old q
+
+theorem update_desc_sound_partial (unrel : Path → Path → Prop) (L : AccessLaws unrel)
+    (old new res : Doc) (us : List (Path × V)) (rs : List Path) (hc : ChangesHold unrel old new us rs)
+    (hres : applyDesc old us rs = .ok res) :
+    (∀ pv ∈ us, getP res pv.1 = getP new pv.1) ∧ (∀ p ∈ rs, getP res p = getP new p) ∧
+    (∀ q, (∀ pv ∈ us, unrel pv.1 q) → (∀ p ∈ rs, unrel p q) → getP res q = getP new q) := by
+  unfold applyDesc at hres
+  split at hres
+  · cases hres
+  · rename_i d1 hputs
+    simp only [Except.ok.injEq] at hres
+    subst hres
+    have hcf := List.pairwise_append.mp hc.conflict_free
+    obtain ⟨hp1, hp2⟩ := applyPuts_get L us old d1 hcf.1 hputs
+    obtain ⟨hu1, hu2⟩ := applyUnsets_get L rs d1 hcf.2.1
+    refine ⟨?_, ?_, ?_⟩
+    · intro pv hpv
+      rw [hu2 pv.1 (fun p hp => L.symm _ _ (hcf.2.2 pv.1 (List.mem_map_of_mem hpv) p hp)), hp1 pv hpv,
+        hc.holds_set pv hpv]
+    · intro p hp
+      rw [hu1 p hp, hc.holds_unset p hp]
+    · intro q hq1 hq2
+      rw [hu2 q hq2, hp2 q hq1, hc.frame q hq1 hq2]
+
+-- non-vacuity: {a:1,b:{c:2},d:4} --$set b.c=3, $unset d--> {a:1,b:{c:3}}; replaying [b.c ↦ 3], [d] in either role
+#guard (applyDesc [("a", .i32 1), ("b", .doc [("c", .i32 2)]), ("d", .i32 4)] [(["b", "c"], .i32 3)] [["d"]])
+  matches .ok [("a", .i32 1), ("b", .doc [("c", .i32 3)])]
+#guard (match Apply (acOf schemaUnmodelled) [("a", .i32 1), ("b", .doc [("c", .i32 2)]), ("d", .i32 4)]
+    [("$set", .doc [("b.c", .i32 3)]), ("$unset", .doc [("d", .str "")])] [] with
+  | .ok (d, ch) => d == [("a", .i32 1), ("b", .doc [("c", .i32 3)])] && ch.length == 2
+  | .error _ => false)
 
 end Lungo.C08
